@@ -2,7 +2,7 @@
    Only statements here; proofs are in FaultProofs.v, ContainProofs.v, Invariant.v. *)
 From Coq Require Import List ZArith NArith Bool Permutation.
 From Scalibr Require Import Walk.Model Walk.Spec Walk.Sched Walk.Trace Walk.C01Proofs Walk.Invariant Walk.Faults
-  Walk.FaultProofs Walk.ContainProofs Walk.Witness Walk.Cases.
+  Walk.FaultProofs Walk.ContainProofs Walk.PathsProofs Walk.Witness Walk.Cases.
 Import ListNotations.
 
 (* ErrorOnFSErrors = false: whatever fails -- any number of faults at any operation site of any tree: root stat,
@@ -25,6 +25,25 @@ Theorem faults_contained : forall c t,
   fs_calls c t = filter (fun ep => not_lost c t (snd ep)) (fs_calls c (erase_faults t)).
 Proof. exact faults_contained_lemma. Qed.
 Print Assumptions faults_contained.
+
+(* the same in requested-paths mode: a requested path that is missing or cannot be stat'ed contributes nothing and
+   does not affect the paths requested after it; every other requested path is extracted as in the fault-free
+   request of that path alone, minus what is lost to faults below it *)
+Theorem faults_contained_paths : forall c t ps,
+  let c' := set_paths c ps in
+  c_fatal c = false -> c_ignore_subdirs c = false -> no_limits c = true -> no_xpanic c ->
+  tree_quiet c' t = true -> gi_readable c' t = true -> wf_tree t = true -> ps <> [] ->
+  (forall p, In p ps -> canonical_path p = true) ->
+  fs_calls c' t =
+  flat_map (fun p => match lookup t p with
+                     | None => []
+                     | Some nd =>
+                         if node_stat_fails nd then []
+                         else filter (fun ep => survives c' nd (skipn (length (spath p)) (spath (snd ep))))
+                                     (fs_calls (set_paths c [p]) (erase_faults t))
+                     end) ps.
+Proof. exact faults_contained_paths_lemma. Qed.
+Print Assumptions faults_contained_paths.
 
 (* every failure to open, stat or parse a file is reflected in the owning extractor's status (failed, or
    partially succeeded iff it produced packages elsewhere), and a non-succeeded status has such a cause *)
